@@ -93,7 +93,15 @@ def run(prop, tier):
 
     def feat(h):
         return tuple((a["act"], a["sh"], a["slot"], a["val"]["k"] if a["act"] == "Rebind" else "") for a in h)[:3]
-    hs = common.subsample_stratified(hs, cap, salt="c04", key=feat)
+    # histories that build the SAME shape twice with a rebinding in between exercise anything the library
+    # remembers about a function between calls: always kept
+    def rebuilt(h):
+        b = [a["sh"] for a in h if a["act"] == "Build"]
+        return len(b) >= 2 and len(set(b)) < len(b) and any(a["act"] != "Build" for a in h)
+    prio = [h for h in hs if rebuilt(h)]
+    rest = [h for h in hs if not rebuilt(h)]
+    hs = prio + common.subsample_stratified(rest, max(0, cap - len(prio)), salt="c04", key=feat)
+    rep.extra["same_shape_built_twice"] = len(prio)
     recs = []
     for tid, h in enumerate(hs, start=1):
         recs += run_history(tid, h)
